@@ -3,8 +3,8 @@ Model/EliasFano — executable model of `src/bits/elias_fano.rs`, following the 
 
 Conventions
 * `Vec<u64>` is `List (BitVec 64)`; `usize`/`u64` scalars are `Nat` (every `usize` value here is
-  bounded by `3·len + 64`, so 64-bit wrap-around is modelled only where an *argument* is added:
-  `advance_by`'s `self.idx + k`, which the release build wraps); `u32` values are `Nat`, every
+  bounded by `3·len + 64`; the one place where an *argument* is added, `advance_by`'s
+  `self.idx.saturating_add(k)`, is modelled with its saturation at 2^64 - 1); `u32` values are `Nat`, every
   `as u32` cast is an explicit `% 2^32`; `u64` shifts / masks are done on `BitVec 64`.
 * `Res α = Option α`: `none` is a Rust panic (slice index out of bounds, `expect` on `None`).
 * `R` is `SELECT_SAMPLE_RATE` (a parameter; the generated value is `Gen.EF_SELECT_SAMPLE_RATE`).
@@ -329,12 +329,12 @@ def advScan : List (BitVec 64) → Nat → Nat → Option (Nat × BitVec 64 × N
     if ones ≥ remaining then some (wordIdx, word, remaining)
     else advScan rest (wordIdx + 1) (remaining - ones)
 
-/-- `advance_by(k)`. `self.idx + k` wraps at 2^64 (release build; a debug build panics there). -/
+/-- `advance_by(k)`. `self.idx.saturating_add(k)` saturates at `usize::MAX = 2^64 - 1`. -/
 def advanceBy (R : Nat) (ef : EliasFano) (c : Cursor) (k : Nat) : Res (Cursor × Option Nat) :=
   if k = 0 then withCurrent ef c
   else if k = 1 then advanceOne ef c
   else
-    let targetIdx := (c.idx + k) % 2 ^ 64
+    let targetIdx := min (c.idx + k) (2 ^ 64 - 1)
     if targetIdx ≥ ef.len then some ({ c with idx := ef.len }, none)
     else if k > 64 then seek R ef c targetIdx
     else
